@@ -997,6 +997,44 @@ func backlogProbe(m *meta, rng *rand.Rand, round int) {
 	m.count("backlog_rounds")
 }
 
+// statsRace (C10): more running Ps than stat stripes; every successful Get must be counted exactly once.
+func statsRace(m *meta, rng *rand.Rand, round int) {
+	pol := pick(rng, []kioshun.EvictionPolicy{kioshun.SieveTinyLFU, kioshun.LRU, kioshun.FIFO})
+	ctx := fmt.Sprintf("stats race round %d policy %v", round, pol)
+	c, err := kioshun.New[int, int](kioshun.Config{MaxSize: 1024, ShardCount: 4, EvictionPolicy: pol, StatsEnabled: true})
+	must(err)
+	for k := 0; k < 64; k++ {
+		c.Set(k, k, kioshun.NoExpiration)
+	}
+	watch(ctx)
+	prev := runtime.GOMAXPROCS(64)
+	const readers, per = 64, 8000
+	var wg sync.WaitGroup
+	var hit, miss atomic.Int64
+	for g := 0; g < readers; g++ {
+		wg.Add(1)
+		go func(g int) {
+			defer wg.Done()
+			for i := 0; i < per; i++ {
+				if _, ok := c.Get((g + i) & 127); ok { // keys 64..127 are absent: misses
+					hit.Add(1)
+				} else {
+					miss.Add(1)
+				}
+			}
+		}(g)
+	}
+	wg.Wait()
+	runtime.GOMAXPROCS(prev)
+	unwatch()
+	st := c.Stats()
+	if st.Hits != hit.Load() || st.Misses != miss.Load() {
+		m.violate("C10", fmt.Sprintf("%s: %d goroutines on 64 Ps made %d hits and %d misses; Stats reports Hits=%d Misses=%d", ctx, readers, hit.Load(), miss.Load(), st.Hits, st.Misses), ctx)
+	}
+	c.Close()
+	m.count("stats_race_rounds")
+}
+
 // flickerProbe replays the schedule of C02.v's c02_atomic_refuted on the real cache through the yield hooks:
 // a reader parked after loading a matching tag, the key deleted and re-inserted into the same slot, the
 // writer parked between publish's item store and tag store. Finding F10 when it reproduces.
@@ -1328,6 +1366,7 @@ func streamConc(o opts) {
 			syncFence(m, rng, r)
 			closeNotify(m, rng, r)
 			backlogProbe(m, rng, r)
+			statsRace(m, rng, r)
 			m.nontrivial(fmt.Sprintf("async+close/%d", r%16))
 		case 3:
 			tableRace(m, rng, r)
